@@ -24,6 +24,9 @@ CONFIGS = [
     # all six comparisons of a tracked value (>=, <=, >, <, ==, !=), two activities
     ('rels', dict(B, NRoots=2, MaxActs=2, RootOps=3, NFlags=1, NRes=1, MaxPools=2, ResInit=1, Horizon=1,
                   Menu={'instant', 'await_lvl', 'lvl_rels', 'rchange'}), INV),
+    # ONE comparison object shared by several waiters, some of which leave early (until) while it is still false
+    ('shared', dict(B, NRoots=3, MaxActs=3, RootOps=2, NFlags=1, NRes=1, MaxPools=2, ResInit=0, Horizon=2, MaxScopes=1,
+                    Menu={'sleep', 'await_lvl', 'lvl_shared', 'rchange', 'until_d', 'leave'}), INV),
     # nested connectives: the model follows the code (known finding), so NoMissedWake is not claimed here
     ('nested', dict(B, NRoots=2, MaxActs=2, RootOps=3, NFlags=2, CondSel='nested',
                     Menu={'instant', 'sleep', 'fset', 'await_conn'}), ('NoFault', 'RunLive')),
@@ -37,11 +40,12 @@ def run(check):
 
     def one(cfg):       # the TLC runs of the configurations overlap
         label, consts, inv = cfg
-        return consts, check.witnesses(label, consts, emit='EmitOps', coverage=check.tier == 'thorough', limit=lim,
+        return consts, check.witnesses(label, consts, emit='EmitOps', coverage=check.tier == 'thorough',
+                                       limit=max(lim, 60000) if label == 'shared' else lim,
                                        invariants=list(inv) + (['NoStuck'] if check.tier == 'thorough' else []))
     with ThreadPoolExecutor(3) as ex:
         generated = list(ex.map(one, CONFIGS))
     for consts, ws in generated:
-        runs += [(p, t, consts['NRoots']) for p, t in usimrun.replay(check, ws, consts, limit=lim)]
+        runs += [(p, t, consts['NRoots']) for p, t in usimrun.replay(check, ws, consts, limit=max(lim, 60000))]
     runs += usimrun.random_runs(check)     # random programs over the whole vocabulary
     usimrun.judge(check, OBS, runs)
